@@ -85,14 +85,24 @@ def run_case(ctx, rng, idx):
             else:
                 deg[0] = total - min(total, 2)
                 deg[1] = total - deg[0]
+            if rng.random() < 0.3 and N >= 5:
+                # cannot be realised greedily, and the shortage shows in the FIRST size class, not the last one
+                big = rng.randint(3, min(4, N - 1))
+                c2 = rng.randint(2, 3)
+                dim_seq = {big: 1, 2: c2}
+                total = big + 2 * c2
+                deg = np.zeros(N, dtype=int)
+                deg[0] = total - total // 2
+                deg[1] = total // 2
             deg_seq = deg
+    rescale = mode == "sequences" and rng.random() < 0.3
     u, w = gen_params(rng, N)
     max_size = rng.choice([None, rng.randint(max(2, max((len(e) for e in (init_edges or [])), default=2), max(dim_seq or {2: 0})), N)])
 
     def wit(extra=None):
         return {"mode": mode, "N": N, "u": u.tolist(), "w": w.tolist(), "max_hye_size": max_size, "burn_in": burn, "thinning": thin, "seed": seed,
                 "initial": None if init_edges is None else [sorted(e, key=repr) for e in init_edges],
-                "deg_seq": None if deg_seq is None else deg_seq.tolist(), "dim_seq": dim_seq, "extra": repr(extra)[:900]}
+                "deg_seq": None if deg_seq is None else deg_seq.tolist(), "dim_seq": dim_seq, "allow_rescaling": rescale, "extra": repr(extra)[:900]}
 
     # ---- chain monitor ------------------------------------------------------------------------
     chain = {"steps": 0, "accepted": 0, "bad": None, "ref": None}
@@ -123,7 +133,7 @@ def run_case(ctx, rng, idx):
                 hh.add_node(n)
             it = s.sample(initial_hyg=hh)
         elif mode == "sequences":
-            it = s.sample(deg_seq=deg_seq.copy().astype(float), dim_seq=dict(dim_seq))
+            it = s.sample(deg_seq=deg_seq.copy().astype(float), dim_seq=dict(dim_seq), allow_rescaling=rescale)
         else:
             it = s.sample()
         out = []
@@ -131,12 +141,24 @@ def run_case(ctx, rng, idx):
             out.append(next(it))
         return s, out
 
+    orig_routine = hs.HyMMSBMSampler._mcmc_routine
+    yielded = []
+
+    def routine_wrapped(self, hye_list, fixed_hyperedges=None):
+        for lst in orig_routine(self, hye_list, fixed_hyperedges=fixed_hyperedges):
+            fs = [frozenset(e) for e in lst]
+            yielded.append({"n": len(fs), "coincided": len(set(fs)) != len(fs)})
+            yield lst
+
+    hs.HyMMSBMSampler._mcmc_routine = routine_wrapped
     hs.HyMMSBMSampler._mcmc_step = step_wrapped
     try:
         with np.errstate(all="ignore"):
             r = call(draw)
     finally:
         hs.HyMMSBMSampler._mcmc_step = orig_step
+        hs.HyMMSBMSampler._mcmc_routine = orig_routine
+    yielded_first = list(yielded)
     if isinstance(r, _Raised):
         # which phase raised?  building the initial configuration (refused) vs the chain / output
         if chain["steps"] == 0 and mode != "initial":
@@ -185,6 +207,14 @@ def run_case(ctx, rng, idx):
             ctx.check("C16:conditioning", all(size[s] <= cond_size.get(s, 0) for s in size), f"C16:{mode}:size-count-exceeds-conditioned", lambda: w2((dict(size), dict(cond_size))))
         if cond_deg is not None:
             ctx.check("C16:conditioning", all(deg[n] <= cond_deg.get(n, 0) for n in deg), f"C16:{mode}:degree-exceeds-conditioned", lambda: w2((dict(deg), dict(cond_deg))))
+        no_coincidence = j < len(yielded_first) and not yielded_first[j]["coincided"]
+        if cond_size is not None and no_coincidence and mode == "initial":
+            # the chain's own output had no two equal hyperedges: nothing may be missing from the sample
+            ctx.check("C16:conditioning", len(E) == sum(cond_size.values()), f"C16:{mode}:no-two-hyperedges-coincided-but-some-are-missing",
+                      lambda: w2((len(E), sum(cond_size.values()))))
+        if cond_size is not None and no_coincidence and mode == "sequences" and sampler.matching_sequences:
+            ctx.check("C16:conditioning", len(E) == sum(cond_size.values()), f"C16:{mode}:no-two-hyperedges-coincided-but-some-are-missing",
+                      lambda: w2((len(E), sum(cond_size.values()))))
         if cond_size is not None and len(E) == sum(cond_size.values()):
             ctx.check("C16:conditioning", +size == +cond_size, f"C16:{mode}:no-merge-but-size-counts-differ", lambda: w2((dict(size), dict(cond_size))))
             if cond_deg is not None:
